@@ -17,6 +17,7 @@ func TestC19(t *testing.T) {
 		"and every enum of freshly generated dialects (seeded XML grammar -> real generator): all defined constants and their neighbours, zero, 2^31, 2^32, 2^63-1, 2^63, 2^64-1, N random 64-bit values " +
 		"for ordinary enums; zero, every defined flag, the OR of all, pairs and N random combinations of defined flags for bitmask enums: UnmarshalText(MarshalText(v)) == v, names rendered as the " +
 		"statement says, String() agrees; rejection of texts that are neither a name, a combination nor a number. distinct = enum types; evaluations = values round-tripped + texts rejected")
+	rep.RuleAdd("Rounds 12-15: merged bitmask enums (extension with and without the attribute, lower flags, non-ascending order), link-mode MAV_MODE_FLAG extension, lower-case entry names read through the enum's own parser.")
 	rep.Assume("values >= 2^63 of ordinary enums may render as negative decimals as long as they parse back (observation, not violation)")
 	seed := vh.Seed()
 	nRandom := vh.Pick(200, 10000)
